@@ -291,7 +291,9 @@ def run_http(acc, level):
                requests.exceptions.ConnectionError('conn refused'),
                requests.exceptions.Timeout('timed out')]
     TOKEN = 'ghs_InstallationTokenSENTINEL0123456789'
-    for flow in ('password', 'app'):
+    import base64
+    from bert_e.git_host import bitbucket
+    for flow in ('password', 'app', 'bitbucket'):
         for pwclass, pw in sorted(PASSWORDS.items()):
             if flow == 'app' and pwclass != 'alnum':
                 continue
@@ -328,26 +330,42 @@ def run_http(acc, level):
                             client = github.Client(
                                 'robot', pw, 'robot@x.invalid', app_id=1234,
                                 installation_id=5678, private_key=pem)
+                        elif flow == 'bitbucket':
+                            client = bitbucket.Client('robot', pw,
+                                                      'robot@x.invalid')
                         else:
                             client = github.Client('robot', pw,
                                                    'robot@x.invalid')
-                        calls = [
-                            lambda: client.get_repository('slug', 'owner'),
-                            lambda: github.Repository.get(
-                                client, owner='owner', repo='slug'),
-                            lambda: github.PullRequest.get(
-                                client, owner='owner', repo='slug',
-                                number=1),
-                            lambda: github.AggregatedStatus.get(
-                                client, owner='owner', repo='slug',
-                                ref='abc'),
-                            lambda: github.Status.create(
-                                client, data={'state': 'success'},
-                                owner='owner', repo='slug', sha='abc'),
-                            lambda: github.Comment.create(
-                                client, data={'body': 'hi'}, owner='owner',
-                                repo='slug', number=1),
-                        ]
+                        if flow == 'bitbucket':
+                            calls = [
+                                lambda: client.get_repository('slug',
+                                                              'owner'),
+                                lambda: client.get_user_id(),
+                                lambda: bitbucket.PullRequest.get(
+                                    client, full_name='owner/slug',
+                                    pull_request_id=1),
+                                lambda: bitbucket.Repository(
+                                    client, repo_slug='slug', owner='owner'
+                                ).get_build_status('abc123', 'pre-merge'),
+                            ]
+                        else:
+                            calls = [
+                                lambda: client.get_repository('slug', 'owner'),
+                                lambda: github.Repository.get(
+                                    client, owner='owner', repo='slug'),
+                                lambda: github.PullRequest.get(
+                                    client, owner='owner', repo='slug',
+                                    number=1),
+                                lambda: github.AggregatedStatus.get(
+                                    client, owner='owner', repo='slug',
+                                    ref='abc'),
+                                lambda: github.Status.create(
+                                    client, data={'state': 'success'},
+                                    owner='owner', repo='slug', sha='abc'),
+                                lambda: github.Comment.create(
+                                    client, data={'body': 'hi'}, owner='owner',
+                                    repo='slug', number=1),
+                            ]
                         for c in calls:
                             acc.count('c16_http_calls')
                             try:
@@ -363,9 +381,19 @@ def run_http(acc, level):
                 ghbase.BertESession = real_session
                 ch = cap.channels()
                 for e in errs:
+                    # the exception *message* is a sink named by the
+                    # statement; repr() of a library exception is not
                     ch.append(('exception-str', str(e)))
-                    ch.append(('exception-repr', repr(e)))
                 secrets = sentinels(pw)
+                if flow == 'bitbucket':
+                    secrets = secrets + [base64.b64encode(
+                        ('robot:%s' % pw).encode('latin1', 'replace')
+                    ).decode()]
+                    try:
+                        secrets.append(base64.b64encode(
+                            ('robot:%s' % pw).encode('utf-8')).decode())
+                    except Exception:
+                        pass
                 if flow == 'app':
                     secrets = [TOKEN] + [j for j in jwts if len(j) > 20]
                     if not jwts:
@@ -379,7 +407,9 @@ def run_http(acc, level):
                 acc.count('c16_http_cells')
                 for channel, snippet in hits:
                     acc.violation(
-                        'github-%s-flow-secret-in-%s' % (flow, channel),
+                        '%s-flow-secret-in-%s' % (
+                            'bitbucket' if flow == 'bitbucket' else
+                            'github-' + flow, channel),
                         'github %s flow, host answers %s: %s contains a '
                         'secret: ...%s...' % (flow, rname, channel,
                                               snippet[:160]),
